@@ -108,6 +108,13 @@ def run_unit(unit, mode, vacuity=False, seed=None, stub=None):
             raise Inconclusive("lost-anchor", e.strip())
         if rc != 0:
             raise Inconclusive("tool-error", "vx: " + e.strip())
+        # a body with a loop or a closure the template has no contract section for cannot carry its proof ("needs
+        # contract"): whatever Verus would say about it is undecided, never a violation -> treated like a lost anchor
+        un = [f["id"] for f in json.load(open(mapf))["functions"]
+              if (f.get("unannotated_loops", 0) > 0 or f.get("unannotated_closures", 0) > 0) and f["id"] not in stub]
+        if un:
+            stub += un
+            continue
         break
     else:
         raise Inconclusive("lost-anchor", "too many functions lost their anchors")
